@@ -392,6 +392,38 @@ def rchannel(rnd):
 def method_frame(rnd, spec, allow_refuse=True, force_tags=None,
                  force_vals=None, channel=None):
     force_vals = force_vals or {}
+    if not force_vals and len(spec.args) >= 2 and rnd.random() < 0.15:
+        # a RELATION between two fields (equal, reversed, case variant,
+        # prefix, doubled, same length; equal / successor / double / length
+        # for integers): independent draws almost never produce one
+        strs = [n for n, t, _ in spec.args if t in ('shortstr', 'longstr')]
+        ints = [(n, t) for n, t, _ in spec.args if t in _FORCE_FMT]
+        if len(strs) >= 2 and rnd.random() < 0.6:
+            a, b = rnd.sample(strs, 2)
+            s0 = gv.rshortstr(rnd).encode('utf-8', 'ignore')[:120].decode(
+                'utf-8', 'ignore')
+            r = rnd.randrange(6)
+            s1 = s0 if r == 0 else s0[::-1] if r == 1 else s0.upper() \
+                if r == 2 else s0[:len(s0) // 2] if r == 3 else s0 + s0 \
+                if r == 4 else 'x' * len(s0)
+            if len(s1.encode('utf-8')) <= 255:
+                force_vals = {a: s0, b: s1}
+        elif len(ints) >= 2:
+            (a, ta), (b, tb) = rnd.sample(ints, 2)
+            x = _wint(rnd, 8 if ta == 'octet' else 16, False)
+            r = rnd.randrange(4)
+            y = x if r == 0 else x + 1 if r == 1 else 2 * x if r == 2 \
+                else x // 2
+            top = {'octet': 255, 'short': 65535, 'long': 2**32 - 1,
+                   'longlong': 2**63 - 1}
+            if x <= top[ta] and y <= top[tb]:
+                force_vals = {a: x, b: y}
+        elif ints and strs:
+            (a, ta), b = rnd.choice(ints), rnd.choice(strs)
+            s0 = gv.rshortstr(rnd).encode('utf-8', 'ignore')[:200].decode(
+                'utf-8', 'ignore')
+            force_vals = {b: s0, a: rnd.choice([len(s0), len(
+                s0.encode('utf-8'))])}
     w = W()
     w.put(struct.pack('>HH', spec.class_id, spec.method_id), 'method-index')
     exp = {}
